@@ -35,6 +35,7 @@ TABLE = [
     ('CircuitPriorityHalflife', 'Float', 'float'),
     ('Nickname', 'String', 'str'),
     ('ExitNodes', 'RouterList', 'comma'),
+    ('ExcludeNodes', 'RouterList', None),
     ('Log', 'LineList', 'lines'),
     ('SocksPortLines', 'Virtual', None),
     ('SocksPort', 'Dependent', 'ports'),
@@ -151,7 +152,7 @@ def c11_bootstrap(ki: int, state: int, i: int, s: str, variant: bool, defsup: bo
         i = api.pick(i, 0, 5)
     variant = True if variant else False
     values = {'AvoidDiskWrites': ['0'], 'AssumeReachable': ['auto'], 'NumCPUs': ['4'], 'CircuitPriorityHalflife': ['30.0'],
-              'Nickname': ['fixed'], 'ExitNodes': None, 'Log': ['notice stdout'], 'SocksPort': ['9050'], '__SocksPort': None, 'SocksPortLines': None}
+              'Nickname': ['fixed'], 'ExitNodes': None, 'ExcludeNodes': ['{aa},{bb}'], 'Log': ['notice stdout'], 'SocksPort': ['9050'], '__SocksPort': None, 'SocksPortLines': None}
     name = _NAME[kind]
     if state == 0:
         values[name] = None
@@ -183,8 +184,8 @@ def _changed(kind, steps, svals):
     3 local in-place edit (append) / scalar assignment, 4 save()"""
     name = _NAME[kind]
     values = {'AvoidDiskWrites': ['0'], 'AssumeReachable': ['auto'], 'NumCPUs': ['4'], 'CircuitPriorityHalflife': ['30.0'],
-              'Nickname': ['fixed'], 'ExitNodes': ['x1'], 'Log': ['notice stdout'], 'SocksPort': ['9050'], '__SocksPort': None, 'SocksPortLines': None}
-    p, t, tor = make_world(values, True, {})
+              'Nickname': ['fixed'], 'ExitNodes': ['x1'], 'ExcludeNodes': ['{aa},{bb}'], 'Log': ['notice stdout'], 'SocksPort': ['9050'], '__SocksPort': None, 'SocksPortLines': None}
+    p, t, tor = make_world(values, True, {'Nickname': ['Unnamed']})
     with api.no_tracing():
         cfg, out = bootstrap(p, tor)
         if out.ok != 1:
@@ -194,7 +195,7 @@ def _changed(kind, steps, svals):
     try:
         for n, op in enumerate(steps):
             if op <= 2:
-                if not listy and op != 1:
+                if not listy and op != 1 and not (kind == 'str' and op == 0):
                     assume(False)
                 if kind == 'comma' and op == 2:
                     assume(False)
@@ -202,9 +203,13 @@ def _changed(kind, steps, svals):
                 tor.options[name]['values'] = vals
                 tor.say(*tor.conf_changed_lines([(name, vals)]))
                 pending_local = None
-                r = check_option(cfg, name, kind, vals, None)
+                r = check_option(cfg, name, kind, vals, ['Unnamed'] if kind == 'str' else None)
                 if r:
                     return r
+                for spelling in (name.lower(), name.upper()):
+                    r = check_option(cfg, name, kind, vals, ['Unnamed'] if kind == 'str' else None, spelling)
+                    if r:
+                        return R('read-depends-on-the-spelling-of-the-name', '%s: %s', spelling, r)
             elif op == 3:
                 if listy:
                     newv = _val(kind, 40 + n, 'q', False)
